@@ -4,6 +4,7 @@
   Every theorem quantifies over ALL row lists, pointers, offsets and operation histories.
 -/
 import Csvq.Lemmas.Cursor
+import Csvq.Lemmas.CursorLocks
 import Csvq.Gen.CursorLoop
 import Csvq.Ref.CursorOps
 namespace Csvq.C16
@@ -774,5 +775,259 @@ example : (aggRun "pc" [5, 6, 7] [.fetch "pc" .next, .count "PC", .isOpen "pc", 
 /-- one variable for a two-column row: the error, but the pointer has moved (the next FETCH returns row 2) -/
 example : (stepFetchInto (fun (r : List Nat) => r.length) [("C", .opened [[1, 2], [3, 4]] (-1) false)] "c" .next 1)
     = ([("C", .opened [[1, 2], [3, 4]] 0 true)], .err .fetchLength) := rfl
+
+
+/-! # cursors under re-entrance and under concurrent fetchers
+
+  1. T-gen over the ACCESS TRACES of cursor.go (Gen.CursorLocks.trace, regenerated on every run): which method
+     evaluates a query while it holds the cursor's mutex, that every method such an evaluation can re-enter tests
+     the closed state before it takes the mutex (the mutex is not re-entrant: waiting for it there is waiting for
+     ever), which fields are read outside the mutex, that nothing is written outside it, that FETCH moves the
+     pointer and reads the row in one critical section.
+  2. The model of a re-entrant OPEN (`openRe`): while OPEN evaluates the cursor's query the cursor is still closed.
+  3. Any schedule of atomic FETCH NEXT steps by any number of clients hands out every row exactly once.
+  (vocabulary and helper lemmas: Csvq/Lemmas/CursorLocks.lean) -/
+
+/-! ## T-gen: who evaluates under the mutex, who may be re-entered -/
+
+/-- `(*Cursor).Open` evaluates the cursor's query (Select) while it holds the cursor's mutex … -/
+theorem gen_open_evaluates_under_lock : evaluatesUnderLock "Cursor.Open" = true := by decide
+
+/-- … and it is the only method of cursor.go that does -/
+theorem gen_only_open_evaluates_under_lock :
+    (Gen.CursorLocks.trace.filter (fun m => m.2.any (evalUnderLockGo false))).map Prod.fst = ["Cursor.Open"] := by decide
+
+/-- no method of *Cursor calls another one: the per-method paths below are the whole story (a helper that takes
+    the mutex itself, called from a method that released it, would split a critical section unseen) -/
+theorem gen_cursor_methods_do_not_call_each_other :
+    Gen.CursorLocks.ownCalls.all (fun m => m.2.isEmpty) = true
+    ∧ Gen.CursorLocks.ownCalls.map Prod.fst = Gen.CursorLocks.trace.map Prod.fst := by decide
+
+/-- the tokens the checkers below interpret really are tests of THE closed state: `view` is a field of Cursor -/
+theorem gen_view_is_a_cursor_field : Gen.CursorLocks.fields.contains "view" = true := by decide
+
+/-
+  FULL STATEMENT (the lock discipline that re-entrance needs): since Open evaluates a query under the mutex, and
+  a query can call a user-defined function that executes ANY cursor statement on the cursor being opened,
+
+      every method of *Cursor tests the closed state before it takes the mutex:
+        Gen.CursorLocks.trace.all (fun m => m.2.all checksClosedBeforeLock) = true
+
+  It is FALSE for the code as it is: Open itself and Close take the mutex unconditionally, so
+  `OPEN cur` / `CLOSE cur` executed by a function that the query of `cur` calls never return (the session
+  hangs; known finding F100, reproducer in known_findings.jsonl).  Proved instead: the violators are exactly those
+  two (`…_partial`), a concrete blocked path (`…_counterexample`), and that every OTHER method returns.
+-/
+
+/-- exactly Open and Close reach the mutex without having tested the closed state; Fetch (the closed check
+    comes first — seed C16-m15 moved it behind the Lock) and the status readers do not -/
+theorem gen_reentrant_lock_discipline_partial :
+    (Gen.CursorLocks.trace.filter (fun m => !m.2.all checksClosedBeforeLock)).map Prod.fst
+      = ["Cursor.Open", "Cursor.Close"] := by decide
+
+/-- CLOSE of a cursor from inside the evaluation of its own OPEN waits for the mutex OPEN holds -/
+theorem gen_reentrant_lock_discipline_counterexample :
+    (traceOf "Cursor.Close").any (fun p => reenterGo true true p = .blocks) = true
+    ∧ (traceOf "Cursor.Open").any (fun p => reenterGo true true p = .blocks) = true := by decide
+
+/-- a path that tests the closed state before it locks never waits for the mutex of a closed cursor, whoever
+    holds it (all paths, by induction) -/
+theorem guarded_path_never_blocks (p : List String) (held : Bool) (h : checksClosedBeforeLock p = true) :
+    reenterGo true held p ≠ .blocks :=
+  checksClosed_never_blocks p held h
+
+/-- an unguarded `lock` is where a re-entrant caller stops (all paths) -/
+theorem unguarded_path_blocks (pre rest : List String)
+    (hpre : ∀ t ∈ pre, t ≠ "view==nil" ∧ t ≠ "view!=nil" ∧ t ≠ "lock" ∧ t ≠ "return") :
+    reenterGo true true (pre ++ "lock" :: rest) = .blocks :=
+  unguarded_lock_blocks pre rest hpre
+
+/-- `open_evaluates_under_lock → every re-entrant method checks the closed state before locking`, for the
+    methods FETCH / IS OPEN / IS IN RANGE / COUNT (and the harness' Pointer) reach: entered while the cursor's
+    own OPEN holds the mutex (the cursor is closed then: Open has tested `view != nil` under the mutex and
+    assigns the view only after the evaluation), none of their paths waits -/
+theorem gen_fetch_and_status_return_during_own_open :
+    evaluatesUnderLock "Cursor.Open" = true →
+    ∀ m ∈ ["Cursor.Fetch", "Cursor.IsOpen", "Cursor.IsInRange", "Cursor.Count", "Cursor.Pointer"],
+      ∀ p ∈ traceOf m, ∀ held, reenterGo true held p ≠ .blocks := by
+  intro _ m hm p hp held
+  apply checksClosed_never_blocks
+  have hall : ["Cursor.Fetch", "Cursor.IsOpen", "Cursor.IsInRange", "Cursor.Count", "Cursor.Pointer"].all
+      (fun m => (traceOf m).all checksClosedBeforeLock) = true := by decide
+  exact List.all_eq_true.mp (List.all_eq_true.mp hall m hm) p hp
+
+/-- the traces of those five methods are not empty (the statement above is about something) -/
+theorem gen_reentrant_methods_found :
+    ["Cursor.Open", "Cursor.Close", "Cursor.Fetch", "Cursor.IsOpen", "Cursor.IsInRange", "Cursor.Count", "Cursor.Pointer"].all
+      (fun m => !(traceOf m).isEmpty) = true := by decide
+
+/-! ## T-gen: what is read and written outside the mutex; FETCH is one critical section -/
+
+/-- every assignment of a cursor field happens under the mutex; outside it there are only READS (second part: every
+    unlocked token is one of the three reads — no `wr:`, no call, no token this file does not know): the closed
+    check in front of Fetch's Lock and the status readers (known finding F79 of C13: they can see a pointer another
+    fetcher is just moving) -/
+theorem gen_cursor_unlocked_accesses :
+    unlockedAccesses = [("Cursor.Fetch", ["rd:view"]), ("Cursor.IsOpen", ["rd:view"]),
+      ("Cursor.IsInRange", ["rd:view", "rd:fetched", "rd:index"]), ("Cursor.Count", ["rd:view"]),
+      ("Cursor.Pointer", ["rd:index"])]
+    ∧ unlockedAccesses.all (fun m => m.2.all (fun t => ["rd:view", "rd:index", "rd:fetched"].contains t)) = true := by decide
+
+/-- `(*Cursor).Fetch` takes the mutex once and keeps it until it returns: moving the pointer (`wr:index`) and
+    reading the row at the pointer (`rd:index`, `rd:view` behind it) are ONE critical section — every FETCH is an
+    atomic `fetch` step of the model, which is what `schedule_hands_out_each_row_once` needs (seed C16-m16 moved
+    the row read into a helper running after the Unlock) -/
+theorem gen_fetch_is_one_critical_section :
+    (traceOf "Cursor.Fetch").all oneCriticalSection = true
+    ∧ (traceOf "Cursor.Fetch").all (fun p => (unlockedGo false p).all (fun t => t = "rd:view")) = true
+    ∧ (traceOf "Cursor.Fetch").any (fun p => p.contains "wr:index" && p.contains "lock") = true := by decide
+
+/-! ## the model of a re-entrant OPEN: the cursor is closed while its OPEN runs -/
+
+section reentrant
+variable {α : Type}
+
+/-- FETCH of the cursor from inside its own OPEN: the "closed" error — it ends the evaluation, OPEN fails with
+    it, and the cursor is closed afterwards (all scopes, names, results, positions, repetition counts) -/
+theorem fetch_during_own_open_is_closed_error (s : Scope α) (n : String) (rows : List α) (reps : Nat) (p : Pos)
+    (h : lookup s (key n) = some .closed) :
+    openRe [s] n rows (reps + 1) [.fetch n p] = ([s], [.err .closed], true) := by
+  simp [openRe, depthOf, lookupS, runReps, runOps, stepS, Op.chainKey, lookup, step, h, CState.fetch]
+
+theorem in_range_during_own_open_is_closed_error (s : Scope α) (n : String) (rows : List α) (reps : Nat)
+    (h : lookup s (key n) = some .closed) :
+    openRe [s] n rows (reps + 1) [.isInRange n] = ([s], [.err .closed], true) := by
+  simp [openRe, depthOf, lookupS, runReps, runOps, stepS, Op.chainKey, lookup, step, h, CState.isInRange]
+
+theorem count_during_own_open_is_closed_error (s : Scope α) (n : String) (rows : List α) (reps : Nat)
+    (h : lookup s (key n) = some .closed) :
+    openRe [s] n rows (reps + 1) [.count n] = ([s], [.err .closed], true) := by
+  simp [openRe, depthOf, lookupS, runReps, runOps, stepS, Op.chainKey, lookup, step, h, CState.count]
+
+/-- IS OPEN from inside its own OPEN is FALSE (no error): the OPEN completes and opens the cursor -/
+theorem is_open_during_own_open_is_false (s : Scope α) (n : String) (rows : List α)
+    (h : lookup s (key n) = some .closed) :
+    openRe [s] n rows 1 [.isOpen n] = ([update s (key n) (.opened rows (-1) false)], [.tern .F, .ok], false) := by
+  simp [openRe, depthOf, lookupS, runReps, runOps, stepS, Op.chainKey, lookup, step, h, CState.isOpen, Tern.ofBool, updateAt]
+
+/-- CLOSE from inside its own OPEN is the no-op it is on every closed cursor; the OPEN completes (the code as it
+    is never returns here: finding F100) -/
+theorem close_during_own_open_is_noop (s : Scope α) (n : String) (rows : List α)
+    (h : lookup s (key n) = some .closed) :
+    (openRe [s] n rows 1 [.close n]).2 = ([.ok, .ok], false)
+    ∧ lookupS (openRe [s] n rows 1 [.close n]).1 (key n) = some (.opened rows (-1) false) := by
+  have hs : (lookup s (key n)).isSome := by simp [h]
+  have hu : lookup (update s (key n) CState.closed) (key n) = some .closed := lookup_update_same s (key n) .closed hs
+  have hs2 : (lookup (update s (key n) CState.closed) (key n)).isSome := by simp [hu]
+  constructor
+  · simp [openRe, depthOf, lookupS, runReps, runOps, stepS, Op.chainKey, lookup, step, h, CState.close]
+  · simp [openRe, depthOf, lookupS, runReps, runOps, stepS, Op.chainKey, lookup, step, h, CState.close, updateAt,
+      lookup_update_same _ _ _ hs2]
+
+/-- an open cursor: OPEN is refused before anything is evaluated — the function is not called at all -/
+theorem open_of_open_cursor_calls_nothing (s : Scope α) (n : String) (rows rows0 : List α) (i : Int) (f : Bool)
+    (reps : Nat) (body : List (Op α)) (h : lookup s (key n) = some (.opened rows0 i f)) :
+    openRe [s] n rows reps body = ([s], [.err .alreadyOpen], true) := by
+  simp [openRe, depthOf, lookupS, h]
+
+theorem open_of_undeclared_cursor_calls_nothing (s : Scope α) (n : String) (rows : List α) (reps : Nat)
+    (body : List (Op α)) (h : lookup s (key n) = none) :
+    openRe [s] n rows reps body = ([s], [.err .undeclared], true) := by
+  simp [openRe, depthOf, lookupS, h]
+
+/-- a function that does nothing with cursors (or is not called: no row): the re-entrant OPEN is the plain OPEN -/
+theorem open_with_empty_body_is_open (s : Scope α) (n : String) (rows : List α) (reps : Nat)
+    (h : lookup s (key n) = some .closed) :
+    openRe [s] n rows reps [] = ([(step s (.open n rows)).1], [.ok], false) := by
+  have hr : ∀ r, runReps [s] ([] : List (Op α)) r = ([s], [], false) := by
+    intro r
+    induction r with
+    | zero => rfl
+    | succ r ih => simp [runReps, runOps, ih]
+  simp [openRe, depthOf, lookupS, h, hr, updateAt, step, CState.open]
+
+end reentrant
+
+/-! ## concurrent fetchers: any interleaving of atomic FETCH NEXT steps -/
+
+section concurrent
+variable {α κ : Type}
+
+/-- whatever the schedule (which client's FETCH NEXT takes the mutex next — any number of clients, any order):
+    the rows handed out, in the order of the schedule, are the rows behind the pointer, in order; the event
+    list has one entry per step, owned by the scheduled client -/
+theorem schedule_hands_out_in_order (rows : List α) (hl : LenOK rows) (sched : List κ) (i : Int) (f : Bool)
+    (h0 : -1 ≤ i) (h1 : i ≤ rows.length) :
+    handedOut (runSched (CState.opened rows i f) sched).2 = (rows.drop (i + 1).toNat).take sched.length
+    ∧ (runSched (CState.opened rows i f) sched).2.map Prod.fst = sched :=
+  ⟨(runSched_opened rows hl sched i f h0 h1).1, (runSched_opened rows hl sched i f h0 h1).2.1⟩
+
+/-- a freshly opened cursor fetched to its end by k clients (at least one FETCH per row in total): the rows
+    handed out are exactly the cursor's rows — each row once, none twice, none skipped — and the cursor rests
+    behind the last row -/
+theorem schedule_hands_out_each_row_once (rows : List α) (hl : LenOK rows) (sched : List κ)
+    (hlen : rows.length ≤ sched.length) :
+    handedOut (runSched (CState.opened rows (-1) false) sched).2 = rows := by
+  have h := runSched_opened rows hl sched (-1) false (by omega) (by omega)
+  rw [h.1]
+  simp [List.take_of_length_le hlen]
+
+/-- … and once some client has seen "no row" (one FETCH more than there are rows) the cursor rests behind the
+    last row, where every further FETCH NEXT of every client finds nothing -/
+theorem schedule_ends_behind_last_row (rows : List α) (hl : LenOK rows) (sched : List κ)
+    (hlen : rows.length < sched.length) :
+    (runSched (CState.opened rows (-1) false) sched).1 = .opened rows rows.length true := by
+  have hne : sched ≠ [] := by intro h; simp [h] at hlen
+  have h := runSched_opened rows hl sched (-1) false (by omega) (by omega)
+  rw [h.2.2 hne]
+  have : ¬ (-1 + (sched.length : Int) < rows.length) := by omega
+  rw [if_neg this]
+
+/-- what one client received and what all the others received are, together, the rows handed out: nothing is
+    handed to two clients, nothing is lost between them -/
+theorem clients_partition_the_rows [DecidableEq κ] (ev : List (κ × Option α)) (k : κ) :
+    (receivedBy k ev ++ handedOut (ev.filter (fun e => !decide (e.1 = k)))).Perm (handedOut ev) := by
+  unfold receivedBy handedOut
+  rw [← List.filterMap_append]
+  exact (List.filter_append_perm (fun e => decide (e.1 = k)) ev).filterMap _
+
+/-- so for a cursor fetched to its end: client k's rows plus everybody else's rows are a permutation of the
+    cursor's rows, under every schedule -/
+theorem concurrent_fetchers_share_the_rows [DecidableEq κ] (rows : List α) (hl : LenOK rows) (sched : List κ)
+    (hlen : rows.length ≤ sched.length) (k : κ) :
+    (receivedBy k (runSched (CState.opened rows (-1) false) sched).2
+      ++ handedOut ((runSched (CState.opened rows (-1) false) sched).2.filter (fun e => !decide (e.1 = k)))).Perm rows := by
+  have h := clients_partition_the_rows (runSched (CState.opened rows (-1) false) sched).2 k
+  rw [schedule_hands_out_each_row_once rows hl sched hlen] at h
+  exact h
+
+/-- the single-client schedule is WHILE IN: `while_in_visits_all_once` is the special case -/
+theorem single_client_schedule_is_while_in (rows : List α) (hl : LenOK rows) :
+    handedOut (runSched (CState.opened rows (-1) false) (List.replicate (rows.length + 1) ())).2 = rows := by
+  exact schedule_hands_out_each_row_once rows hl (List.replicate (rows.length + 1) ()) (by simp)
+
+end concurrent
+
+/-! ## non-vacuity -/
+
+example : checksClosedBeforeLock ["rd:view", "view!=nil", "lock", "defer-unlock", "return"] = true
+    ∧ checksClosedBeforeLock ["lock", "defer-unlock", "rd:view", "view==nil", "return"] = false
+    ∧ reenterGo true true ["lock", "defer-unlock", "rd:view", "view==nil", "return"] = .blocks
+    ∧ reenterGo true true ["rd:view", "view==nil", "return"] = .returns
+    ∧ reenterGo true true ["rd:view", "view!=nil", "lock", "return"] = .infeasible := by decide
+
+example : oneCriticalSection ["lock", "wr:index", "unlock", "rd:index", "return"] = false
+    ∧ oneCriticalSection ["lock", "defer-unlock", "wr:index", "rd:index", "return"] = true
+    ∧ unlockedGo false ["lock", "wr:index", "unlock", "rd:index", "return"] = ["rd:index"] := by decide
+
+example : openRe [[("CUR", CState.closed), ("C2", .opened [7, 8] (-1) false)]] "cur" [1, 2, 3] 2 [.fetch "c2" .next, .isOpen "cur"]
+    = ([[("CUR", .opened [1, 2, 3] (-1) false), ("C2", .opened [7, 8] 1 true)]],
+       [.row 7, .tern .F, .row 8, .tern .F, .ok], false) := rfl
+
+example : (openRe [[("CUR", (CState.closed : CState Nat))]] "cur" [1, 2, 3] 1 [.dispose "cur"])
+    = ([[]], [.ok, .ok], false) := rfl
+
+example : (runSched (CState.opened [10, 20, 30] (-1) false) ["a", "b", "b", "a", "b"]).2
+    = [("a", some 10), ("b", some 20), ("b", some 30), ("a", none), ("b", none)] := by decide
 
 end Csvq.C16
